@@ -29,6 +29,18 @@ def load_variants(only=None):
             if only and v['prop'] != only.upper() and only not in v['name']:
                 continue
             out.append(v)
+    # the kept corpora are variants too: a seeded change must be reported by the check of its property (F), a kept refactoring must leave
+    # the check of its property silent (S); the patches are applied with `git apply` instead of text edits
+    for kind, expect in (('seeded', 'F'), ('refactors', 'S')):
+        for d in sorted(glob.glob(os.path.join(HERE, kind, '*', 'patch.diff'))):
+            ident = os.path.basename(os.path.dirname(d))
+            try:
+                prop = json.load(open(os.path.join(os.path.dirname(d), 'meta.json')))['property']
+            except Exception:
+                continue
+            if only and prop != only.upper() and only not in ident:
+                continue
+            out.append({'name': f'{kind[:-2] if kind == "seeded" else "refactoring"} {ident}', 'prop': prop, 'expect': expect, 'patch': d})
     return out
 
 
@@ -57,7 +69,11 @@ def run_variant(repo, v):
                         ignore=shutil.ignore_patterns('__pycache__', '*.pyc', '*.egg-info'))
         if os.path.isdir(os.path.join(repo, 'docs', 'src', 'lvs')):
             shutil.copytree(os.path.join(repo, 'docs', 'src', 'lvs'), os.path.join(tmp, 'docs', 'src', 'lvs'))
-        stale = apply_edits(tmp, v['edits'])
+        if v.get('patch'):
+            r = subprocess.run(['git', 'apply', v['patch']], cwd=tmp, capture_output=True, text=True)
+            stale = None if r.returncode == 0 else 'patch does not apply: ' + r.stderr[-160:]
+        else:
+            stale = apply_edits(tmp, v['edits'])
         if stale:
             return {'name': v['name'], 'prop': v['prop'], 'expect': v['expect'], 'result': 'stale', 'detail': stale}
         env = dict(os.environ, VERIF_EVIDENCE_DIR=os.path.join(tmp, 'evidence'))
